@@ -64,7 +64,7 @@ def run(pid, ctx, repo=None):
                 c2 = core.Ctx(pid, 'quick', db2, scratch=True)
                 mod.run(c2)
                 new = [o for o in c2.obs if o.status == 'violation' and (o.rule, o.key) not in base]
-                broken = [m for m in c2.mins if m[1] < m[2]] + [c for c in c2.controls if not c[1]]
+                broken = [m for m in c2.mins if m[1] < m[2]] + [c for c in c2.controls if not c[1]] + list(c2.broken)
                 fired = bool(new) or bool(broken)
                 rep = [{'rule': o.rule, 'instance': o.key, 'loc': o.loc, 'what': o.what[:200]} for o in new[:4]]
                 if broken and not new:
@@ -109,7 +109,7 @@ def gm_control(pid, ctx, n=24, repo=None):
                     c2 = core.Ctx(pid, 'quick', db2, scratch=True)
                     mod.run(c2)
                     new = [o for o in c2.obs if o.status == 'violation' and (o.rule, o.key) not in base]
-                    broken = [m for m in c2.mins if m[1] < m[2]] + [c for c in c2.controls if not c[1]]
+                    broken = [m for m in c2.mins if m[1] < m[2]] + [c for c in c2.controls if not c[1]] + list(c2.broken)
                     fired = bool(new) or bool(broken)
                     rep = [{'rule': o.rule, 'instance': o.key, 'loc': o.loc, 'what': o.what[:200]} for o in new[:3]] or ([{'analysis_broken': str(broken[:2])}] if broken else [])
                 except facts.AnalysisBroken as e:
